@@ -184,6 +184,82 @@ example : (buildBlock Toy.comp Toy.cfg 7 0 Toy.g 0 9 10 5 [1, 2] []).toOption.ma
     = some (3, 2, 712) := by decide
 example : Toy.comp.txRoot [] = 7 ∧ Toy.comp.receiptRoot [] = 0 ∧ Toy.comp.uncleHash [] = 0 := by decide
 
+/-- **A skipped candidate leaves the state as before it.**  In the miner's loop (`commitTransactions`) a pending transaction that
+    cannot be applied — whatever `ApplyTransaction` had already done to the state before failing (nonce bumped, gas bought) — is
+    dropped with state, receipts and `header.GasUsed` exactly as they were before the attempt (`Snapshot` / `RevertToSnapshot`);
+    only the gas pool (not journalled) may have shrunk.  This is the obligation the seeded change C01-4 breaks. -/
+theorem build_skips_leave_state (C : Comp St Tx) (cfg : Cfg) (h : Header) (author : Option Addr) (skipPool : Nat → Tx → Nat)
+    (st : St) (pool used : Nat) (tx : Tx) (rest : List Tx) (e : Err)
+    (hfail : applyTransaction C cfg h author st pool used tx = .error e) :
+    commitTxs C cfg h author skipPool st pool used (tx :: rest) =
+      commitTxs C cfg h author skipPool st (skipPool pool tx) used rest := by
+  simp only [commitTxs, hfail]
+
+/-- … in particular a pending set none of which can be applied yields an empty block on the untouched state. -/
+theorem build_all_skipped (C : Comp St Tx) (cfg : Cfg) (h : Header) (author : Option Addr) (skipPool : Nat → Tx → Nat)
+    (cands : List Tx) (st : St) (pool used : Nat)
+    (hfail : ∀ tx ∈ cands, ∀ p, ∃ e, applyTransaction C cfg h author st p used tx = .error e) :
+    (commitTxs C cfg h author skipPool st pool used cands).st = st ∧
+    (commitTxs C cfg h author skipPool st pool used cands).included = [] ∧
+    (commitTxs C cfg h author skipPool st pool used cands).receipts = [] ∧
+    (commitTxs C cfg h author skipPool st pool used cands).used = used := by
+  induction cands generalizing pool with
+  | nil => exact ⟨rfl, rfl, rfl, rfl⟩
+  | cons tx rest ih =>
+    obtain ⟨e, he⟩ := hfail tx (List.mem_cons_self ..) pool
+    rw [build_skips_leave_state C cfg h author skipPool st pool used tx rest e he]
+    exact ih (skipPool pool tx) (fun t ht => hfail t (List.mem_cons_of_mem _ ht))
+
+/-- **The miner's block — built from ANY pending set, with any candidates skipped along the way — is the builder's block over
+    the transactions that were committed**, hence (by `build_then_import`) accepted by the import path with the same state,
+    receipts and gas.  Hypotheses: a failed attempt never enlarges the gas pool, and the gas pool only has to be large enough
+    (`PoolMono`: the importer, which never attempted the skipped candidates, has at least as much gas left). -/
+theorem build_pending_then_import (C : Comp St Tx) (cfg : Cfg) (eR eU : Hash)
+    (h1 : C.txRoot [] = eR) (h2 : C.receiptRoot [] = eR) (h3 : C.uncleHash [] = eU)
+    (idem : ∀ d st, C.root (C.finalise d (C.finalise d st)) = C.root (C.finalise d st))
+    (hm : PoolMono C) (skipPool : Nat → Tx → Nat) (hs : ∀ p tx, skipPool p tx ≤ p)
+    (parent : Header) (pst : St) (coinbase : Addr) (time extra : Nat) (cands : List Tx) (uncles : List Header) :
+    let B := buildBlockPending C cfg eR eU parent pst coinbase time extra skipPool cands uncles
+    buildBlock C cfg eR eU parent pst coinbase time extra B.block.txs uncles = .ok B ∧
+    (∃ p, process C cfg pst B.block = .ok p ∧ p.st = B.st ∧ p.receipts = B.receipts ∧ p.gasUsed = B.block.header.gasUsed ∧
+          C.root p.st = B.block.header.root) ∧
+    (∃ q, validateAll C cfg pst B.block = .ok q ∧ q.receipts = B.receipts ∧ q.gasUsed = B.block.header.gasUsed) := by
+  intro B
+  have hb : buildBlock C cfg eR eU parent pst coinbase time extra B.block.txs uncles = .ok B := by
+    have htx : B.block.txs = (commitTxs C cfg (makeHeader C parent coinbase time extra) (some (makeHeader C parent coinbase time extra).coinbase)
+        skipPool (forkEdits C cfg (makeHeader C parent coinbase time extra).number pst) (makeHeader C parent coinbase time extra).gasLimit
+        (makeHeader C parent coinbase time extra).gasUsed cands).included := by
+      show (newBlock C eR eU _ _ uncles _).txs = _
+      unfold newBlock
+      simp only []
+    obtain ⟨pf, hpf⟩ := commitTxs_replay C hm cfg (makeHeader C parent coinbase time extra)
+      (some (makeHeader C parent coinbase time extra).coinbase) skipPool hs cands
+      (forkEdits C cfg (makeHeader C parent coinbase time extra).number pst) _ _ (makeHeader C parent coinbase time extra).gasUsed
+      (Nat.le_refl (makeHeader C parent coinbase time extra).gasLimit)
+    unfold buildBlock
+    simp only []
+    rw [htx, hpf]
+    rfl
+  obtain ⟨hp, hq⟩ := build_then_import C cfg eR eU h1 h2 h3 idem parent pst coinbase time extra B.block.txs uncles B hb
+  exact ⟨hb, hp, hq⟩
+
+-- non-vacuity: with a gas pool of 2 the toy miner commits the first two of three candidates (each costs 1 gas), skips the
+-- third ("gas limit reached") and the block carries exactly the two; the toy components satisfy `PoolMono`.
+example : ((commitTxs Toy.comp Toy.cfg Toy.g none (fun p _ => p) 0 2 0 [1, 2, 4]).included,
+           (commitTxs Toy.comp Toy.cfg Toy.g none (fun p _ => p) 0 2 0 [1, 2, 4]).st,
+           (commitTxs Toy.comp Toy.cfg Toy.g none (fun p _ => p) 0 2 0 [1, 2, 4]).used) = ([1, 2], 3, 2) := by decide
+example : PoolMono Toy.comp := by
+  intro cfg ctx st p p' tx r h hp
+  simp only [Toy.comp] at h ⊢
+  by_cases e : p = 0
+  · rw [if_pos e] at h; cases h
+  · rw [if_neg e] at h
+    have e' : p' ≠ 0 := by omega
+    rw [if_neg e']
+    cases h
+    simp only [Except.ok.injEq, MsgResult.mk.injEq, true_and]
+    omega
+
 /-! ## 4. A refused block leaves nothing behind -/
 
 /-- If any stage before `WriteBlockWithState` fails for a block whose parent state is at hand — blacklist, header, body hashes,
